@@ -10,7 +10,7 @@
 From Coq Require Import List Arith Lia PeanoNat Bool.
 Import ListNotations.
 From PGV Require Import NdIndex Blocks Layouts Handler TransposeExec HandlerRoute
-  GatherStep GatherValid ScatterStep SwapperExec SwapperRoute.
+  GatherStep GatherValid ScatterStep SwapperExec SwapperRoute SwapperCtor.
 
 (** gather, function level (seed): Allgather of flat block prefixes padded to max_block_shape + per-rank
     unpack with the sender's true shape, over an abstract rank type (virtual ranks included) *)
@@ -178,6 +178,19 @@ Theorem c03_redirect_intact : forall (L : Type) (s : bst L) steps cur,
   redirect_intact L s steps BDst = Data (last steps cur) /\ redirect_intact L s steps BSrc = Data cur.
 Proof. exact redirect_intact_spec. Qed.
 Print Assumptions c03_redirect_intact.
+
+(** the constructor's choice of sub-communicators (model sw_ctor, tied to __init__ by the differential): the axes
+    chosen for a handler are distinct axes of the topology whose extents are the handler's process counts *)
+Theorem c03_ctor_axes : forall Lmax Lh procs i avail axs, sw_choose Lmax Lh procs i avail = Some axs ->
+  length axs = length procs /\ NoDup axs /\
+  forall k, k < length procs -> nth k axs 0 < length avail /\ nth (nth k axs 0) avail None = Some (nth k procs 0).
+Proof. exact sw_choose_spec. Qed.
+Print Assumptions c03_ctor_axes.
+Example c03_example_ctor :
+  sw_ctor [[[0;2;1];[1;2;0]];[[0;2;1]];[[2;1;0]]] [[2;2];[2];[2]] = Some (0, [2;2], [[0;1];[0];[1]]) /\
+  sw_ctor [[[0;1;2];[0;2;1];[1;0;2]];[[0;1;2]]] [[2;2];[2]] = Some (0, [2;2], [[0;1];[0]]) /\
+  sw_ctor [[[0;2;1];[1;2;0]];[[0;2;1]]] [[2;3];[4]] = None.
+Proof. vm_compute. repeat split; reflexivity. Qed.
 
 (** non-vacuity.  Shape [2;2;2], topology [2;2]; v_parallel_2d = ([0;2;1], axes [0;1]),
     v_parallel_1d = ([0;2;1], axis [0]), mode_solve = ([1;2;0], axes [0;1]); payload = global linear index.
